@@ -1,6 +1,6 @@
 (* C03 — contracting any process tensor reproduces the exact joint evolution. *)
 From Coq Require Import Arith ZArith List Bool Permutation.
-From OQ Require Import Lib.RingSum Lib.Tensor Model.Dyn Model.PT Model.Shapes Proofs.DynSpec Proofs.PTSpec Proofs.ShapesSpec.
+From OQ Require Import Lib.RingSum Lib.Tensor Model.Dyn Model.PT Model.Shapes Proofs.DynSpec Proofs.PTSpec Proofs.PTCommute Proofs.ShapesSpec.
 Import ListNotations.
 
 (* (1) For every ring, dimension, number of steps, list of process tensors, controls and
@@ -71,6 +71,28 @@ Theorem order_independent_partial :
 Proof. exact env_order_irrelevant_if_commuting. Qed.
 Print Assumptions order_independent_partial.
 
+(* ... in particular for every list of process tensors whose MPO tensors are rank 3 without transforms
+   (diagonal in the system index: what PT-TEMPO produces for coupling operators that are diagonal in
+   the computational basis), whatever their bond dimensions and entries: they act on different bond
+   legs and pointwise on the system leg.  Concrete tensor semantics (Model/PT.v), any permutation, any
+   number of environments; [ready]: the bond legs of the augmented state have the input bond
+   dimensions of the tensors about to be applied (an invariant of compute_dynamics). *)
+Theorem order_independent_diagonal :
+  forall (K : Ring) (dsys : nat) (pts : nat -> ptensor K) (Ms : nat -> mpo K),
+    (forall j, pt_tin K (pts j) = None /\ pt_tout K (pts j) = None /\ m_rank4 K (Ms j) = false) ->
+    forall js js' : list nat, Permutation js js' -> NoDup js ->
+    forall v : aug K,
+      (forall j, In j js -> j < length (fst v) /\ nth j (fst v) 0 = m_da K (Ms j)) ->
+      fold_left (fun v j => apply_mpo K dsys j (pts j) (Some (Ms j)) v) js v =
+      fold_left (fun v j => apply_mpo K dsys j (pts j) (Some (Ms j)) v) js' v.
+Proof.
+  intros K dsys pts Ms H js js' HP Hnd v Hr.
+  apply (diagonal_envs_any_order K dsys pts Ms (fun j a a' o => get [a; a'; o] (m_t K (Ms j)))); try assumption.
+  intros j a a' i o. destruct (H j) as (H1 & H2 & H3). unfold mpo_fun. rewrite H1, H2, H3.
+  destruct (Nat.eqb_spec i o) as [->|_]; reflexivity.
+Qed.
+Print Assumptions order_independent_diagonal.
+
 (* ... and it is false without that premise: two maps on Z that do not commute *)
 Theorem order_dependent_refuted :
   exists (env : nat -> nat -> Z -> Z) (v : Z),
@@ -90,3 +112,19 @@ Theorem sum_of_baths_exponent :
     radd (exponent iu er1 ei1 m p i j) (exponent iu er2 ei2 m p i j).
 Proof. intros. apply exponent_additive. Qed.
 Print Assumptions sum_of_baths_exponent.
+
+(* the premises of order_independent_diagonal are met by a non-trivial pair of rank-3 tensors with
+   different output bond dimensions, and both orders give the same, non-trivial, augmented state *)
+Example diagonal_premises_met :
+  let p := @Build_ptensor ZRing 2 2 None None [] [] in
+  let M0 := @Build_mpo ZRing 1 2 false (@tab ZRing [1; 2; 2] (fun idx => match idx with [_; b; o] => Z.of_nat (1 + b + 2 * o) | _ => 0%Z end)) in
+  let M1 := @Build_mpo ZRing 1 3 false (@tab ZRing [1; 3; 2] (fun idx => match idx with [_; b; o] => Z.of_nat (2 + 3 * b + o * o) | _ => 0%Z end)) in
+  let Ms := fun j => if Nat.eqb j 0 then M0 else M1 in
+  let v := init_aug ZRing 2 2 [3; 5]%Z in
+  (forall j, In j [0; 1] -> j < length (fst v) /\ nth j (fst v) 0 = m_da ZRing (Ms j)) /\
+  flat (snd (fold_left (fun v j => apply_mpo ZRing 2 j p (Some (Ms j)) v) [0; 1] v)) =
+  flat (snd (fold_left (fun v j => apply_mpo ZRing 2 j p (Some (Ms j)) v) [1; 0] v)) /\
+  flat (snd (fold_left (fun v j => apply_mpo ZRing 2 j p (Some (Ms j)) v) [0; 1] v)) = [6; 15; 24; 12; 30; 48; 45; 90; 135; 60; 120; 180]%Z.
+Proof.
+  split; [intros j [<-|[<-|[]]]; split; solve [reflexivity | repeat constructor]|]. split; vm_compute; reflexivity.
+Qed.
